@@ -37,10 +37,10 @@ package runtime
 
 //@ extern github.com/spf13/cast.ToFloat64
 //@ pure
-//@ ensures typeis(i, float64) ==> result == i.(float64)
-//@ ensures typeis(i, int64) ==> result == float64(i.(int64))
-//@ ensures typeis(i, bool) ==> result == (i.(bool) ? 1.0 : 0.0)
-//@ ensures i == nil ==> result == 0.0
+//@ ensures typeis(i, float64) ==> same(result, i.(float64))
+//@ ensures typeis(i, int64) ==> same(result, float64(i.(int64)))
+//@ ensures typeis(i, bool) ==> same(result, i.(bool) ? 1.0 : 0.0)
+//@ ensures i == nil ==> same(result, 0.0)
 
 //@ extern github.com/spf13/cast.ToBool
 //@ pure
@@ -556,3 +556,77 @@ package runtime
 //@ pure
 //@ loop 1
 //@ invariant cur != nil
+
+// ---------------------------------------------------------------------------
+// C02: the evaluators: operands are evaluated left to right exactly once,
+// && / || short-circuit only on a boolean left operand, values come from the kernels.
+// (callarg/callres/ncalls speak about the direct calls made by the function body.)
+
+//@ spec lhsV() any = callres(RunStmt, 0, 0)
+//@ spec lhsT() ast.DType = callres(RunStmt, 0, 1)
+//@ spec lhsE() *errchain.PlError = callres(RunStmt, 0, 2)
+//@ spec rhsV() any = callres(RunStmt, 1, 0)
+//@ spec rhsT() ast.DType = callres(RunStmt, 1, 1)
+//@ spec rhsE() *errchain.PlError = callres(RunStmt, 1, 2)
+//@ spec scLeft(op ast.Op, v any, t ast.DType) bool = t == ast.Bool && ((op == ast.OR && v.(bool)) || (op == ast.AND && !v.(bool)))
+//@ spec isArith(t ast.DType) bool = isNum(t) || t == ast.String
+
+//@ func RunConditionExpr
+//@ ensures[C02] ncalls(RunStmt) >= 1 && callarg(RunStmt, 0, 1) == expr.LHS
+//@ ensures[C02] lhsE() != nil ==> ncalls(RunStmt) == 1 && ncalls(condOp) == 0 && result2 != nil
+//@ ensures[C02] lhsE() == nil && scLeft(expr.Op, lhsV(), lhsT()) ==> ncalls(RunStmt) == 1 && ncalls(condOp) == 0
+//@ ensures[C02] lhsE() == nil && scLeft(expr.Op, lhsV(), lhsT()) ==> result2 == nil && result1 == ast.Bool && result0 == lhsV()
+//@ ensures[C02] lhsE() == nil && !scLeft(expr.Op, lhsV(), lhsT()) ==> ncalls(RunStmt) == 2 && callarg(RunStmt, 1, 1) == expr.RHS
+//@ ensures[C02] lhsE() == nil && !scLeft(expr.Op, lhsV(), lhsT()) && rhsE() != nil ==> ncalls(condOp) == 0 && result2 != nil
+//@ ensures[C02] lhsE() == nil && !scLeft(expr.Op, lhsV(), lhsT()) && rhsE() == nil ==> ncalls(condOp) == 1
+//@ | && callarg(condOp, 0, 0) == lhsV() && callarg(condOp, 0, 1) == rhsV() && callarg(condOp, 0, 2) == lhsT() && callarg(condOp, 0, 3) == rhsT() && callarg(condOp, 0, 4) == expr.Op
+//@ ensures[C02] lhsE() == nil && !scLeft(expr.Op, lhsV(), lhsT()) && rhsE() == nil && callres(condOp, 0, 2) == nil ==> result2 == nil && result0 == callres(condOp, 0, 0) && result1 == callres(condOp, 0, 1)
+//@ ensures[C02] lhsE() == nil && !scLeft(expr.Op, lhsV(), lhsT()) && rhsE() == nil && callres(condOp, 0, 2) != nil ==> result2 != nil
+
+//@ func RunArithmeticExpr
+//@ ensures[C02] ncalls(RunStmt) >= 1 && callarg(RunStmt, 0, 1) == expr.LHS
+//@ ensures[C02] lhsE() != nil ==> ncalls(RunStmt) == 1 && result2 != nil
+//@ ensures[C02] lhsE() == nil ==> ncalls(RunStmt) == 2 && callarg(RunStmt, 1, 1) == expr.RHS
+//@ ensures[C02] lhsE() == nil && rhsE() != nil ==> result2 != nil
+//@ ensures[C02] lhsE() == nil && rhsE() == nil && (!isArith(lhsT()) || !isArith(rhsT())) ==> result2 != nil
+//@ ensures[C02] lhsE() == nil && rhsE() == nil && lhsT() == ast.String && rhsT() == ast.String && expr.Op == ast.ADD ==> result2 == nil && result1 == ast.String && result0.(string) == lhsV().(string) + rhsV().(string) && typeis(result0, string)
+//@ ensures[C02] lhsE() == nil && rhsE() == nil && isArith(lhsT()) && isArith(rhsT()) && (lhsT() == ast.String || rhsT() == ast.String) && !(lhsT() == ast.String && rhsT() == ast.String && expr.Op == ast.ADD) ==> result2 != nil
+//@ ensures[C02] lhsE() == nil && rhsE() == nil && isNum(lhsT()) && isNum(rhsT()) && (lhsT() == ast.Float || rhsT() == ast.Float) ==> ncalls(arithOpFloat) == 1 && ncalls(arithOpInt) == 0
+//@ | && same(callarg(arithOpFloat, 0, 0), asFloat(lhsV(), lhsT())) && same(callarg(arithOpFloat, 0, 1), asFloat(rhsV(), rhsT())) && callarg(arithOpFloat, 0, 2) == expr.Op
+//@ | && (callres(arithOpFloat, 0, 2) != nil ==> result2 != nil)
+//@ | && (callres(arithOpFloat, 0, 2) == nil ==> result2 == nil && typeis(result0, float64) && same(result0.(float64), callres(arithOpFloat, 0, 0)) && result1 == callres(arithOpFloat, 0, 1))
+//@ ensures[C02] lhsE() == nil && rhsE() == nil && isNum(lhsT()) && isNum(rhsT()) && lhsT() != ast.Float && rhsT() != ast.Float ==> ncalls(arithOpInt) == 1 && ncalls(arithOpFloat) == 0
+//@ | && callarg(arithOpInt, 0, 0) == asInt(lhsV(), lhsT()) && callarg(arithOpInt, 0, 1) == asInt(rhsV(), rhsT()) && callarg(arithOpInt, 0, 2) == expr.Op
+//@ | && (callres(arithOpInt, 0, 2) != nil ==> result2 != nil)
+//@ | && (callres(arithOpInt, 0, 2) == nil ==> result2 == nil && typeis(result0, int64) && result0.(int64) == callres(arithOpInt, 0, 0) && result1 == callres(arithOpInt, 0, 1))
+
+//@ func RunUnaryExpr
+//@ ensures[C02] expr.Op == ast.SUB || expr.Op == ast.ADD || expr.Op == ast.NOT ==> ncalls(RunStmt) == 1 && callarg(RunStmt, 0, 1) == expr.RHS
+//@ ensures[C02] expr.Op != ast.SUB && expr.Op != ast.ADD && expr.Op != ast.NOT ==> result2 != nil
+//@ ensures[C02] ncalls(RunStmt) == 1 && lhsE() != nil ==> result2 != nil
+//@ ensures[C02] (expr.Op == ast.SUB || expr.Op == ast.ADD) && lhsE() == nil && lhsT() == ast.Int ==> result2 == nil && result1 == ast.Int && typeis(result0, int64)
+//@ | && result0.(int64) == (expr.Op == ast.SUB ? -lhsV().(int64) : lhsV().(int64))
+//@ ensures[C02] (expr.Op == ast.SUB || expr.Op == ast.ADD) && lhsE() == nil && lhsT() == ast.Float ==> result2 == nil && result1 == ast.Float && typeis(result0, float64)
+//@ | && same(result0.(float64), expr.Op == ast.SUB ? -lhsV().(float64) : lhsV().(float64))
+//@ ensures[C02] (expr.Op == ast.SUB || expr.Op == ast.ADD) && lhsE() == nil && lhsT() == ast.Bool ==> result2 == nil && result1 == ast.Int && typeis(result0, int64)
+//@ | && result0.(int64) == (lhsV().(bool) ? (expr.Op == ast.SUB ? -1 : 1) : 0)
+//@ ensures[C02] (expr.Op == ast.SUB || expr.Op == ast.ADD) && lhsE() == nil && !isNum(lhsT()) ==> result2 != nil
+//@ ensures[C02] expr.Op == ast.NOT && lhsE() == nil && lhsV() == nil ==> result2 == nil && result1 == ast.Bool && result0 == any(true)
+//@ ensures[C02] expr.Op == ast.NOT && lhsE() == nil && typeis(lhsV(), bool) ==> result2 == nil && result1 == ast.Bool && typeis(result0, bool) && result0.(bool) == !lhsV().(bool)
+//@ ensures[C02] expr.Op == ast.NOT && lhsE() == nil && typeis(lhsV(), int64) ==> result2 == nil && result1 == ast.Bool && typeis(result0, bool) && result0.(bool) == (lhsV().(int64) == 0)
+//@ ensures[C02] expr.Op == ast.NOT && lhsE() == nil && typeis(lhsV(), float64) ==> result2 == nil && result1 == ast.Bool && typeis(result0, bool) && result0.(bool) == (lhsV().(float64) == 0.0)
+//@ ensures[C02] expr.Op == ast.NOT && lhsE() == nil && typeis(lhsV(), string) ==> result2 == nil && result1 == ast.Bool && typeis(result0, bool) && result0.(bool) == (len(lhsV().(string)) == 0)
+//@ ensures[C02] expr.Op == ast.NOT && lhsE() == nil && typeis(lhsV(), []any) ==> result2 == nil && result1 == ast.Bool && typeis(result0, bool) && result0.(bool) == (len(lhsV().([]any)) == 0)
+//@ ensures[C02] expr.Op == ast.NOT && lhsE() == nil && typeis(lhsV(), map[string]any) ==> result2 == nil && result1 == ast.Bool && typeis(result0, bool) && result0.(bool) == (len(lhsV().(map[string]any)) == 0)
+
+//@ func RunInExpr
+//@ ensures[C02] ncalls(RunStmt) >= 1 && callarg(RunStmt, 0, 1) == expr.LHS
+//@ ensures[C02] lhsE() != nil ==> ncalls(RunStmt) == 1 && result2 != nil
+//@ ensures[C02] lhsE() == nil ==> ncalls(RunStmt) == 2 && callarg(RunStmt, 1, 1) == expr.RHS
+//@ ensures[C02] lhsE() == nil && rhsE() != nil ==> result2 != nil
+//@ ensures[C02] lhsE() == nil && rhsE() == nil && rhsT() != ast.String && rhsT() != ast.Map && rhsT() != ast.List ==> result2 != nil
+//@ ensures[C02] lhsE() == nil && rhsE() == nil && (rhsT() == ast.String || rhsT() == ast.Map) && lhsT() != ast.String ==> result2 != nil
+//@ ensures[C02] lhsE() == nil && rhsE() == nil && rhsT() == ast.Map && lhsT() == ast.String ==> result2 == nil && result1 == ast.Bool && typeis(result0, bool) && result0.(bool) == dom(rhsV().(map[string]any), lhsV().(string))
+//@ ensures[C02] lhsE() == nil && rhsE() == nil && rhsT() == ast.String && lhsT() == ast.String ==> result2 == nil && result1 == ast.Bool && typeis(result0, bool)
+//@ | && ncalls(strings.Contains) == 1 && callarg(strings.Contains, 0, 0) == rhsV().(string) && callarg(strings.Contains, 0, 1) == lhsV().(string) && result0.(bool) == callres(strings.Contains, 0, 0)
+//@ ensures[C02] lhsE() == nil && rhsE() == nil && rhsT() == ast.List ==> result2 == nil && result1 == ast.Bool && typeis(result0, bool)
